@@ -125,9 +125,9 @@ func (c *cutConn) Read(p []byte) (int, error) {
 // the kernel gives up retransmitting.
 type srvConn struct {
 	net.Conn
-	mode    atomic.Int32
-	gone    chan struct{}
-	goneMu  sync.Once
+	mode       atomic.Int32
+	gone       chan struct{}
+	goneMu     sync.Once
 	stall      atomic.Pointer[chan struct{}] // non-nil: writes wait until the channel is closed (a peer that stopped reading)
 	stallAfter int64                         // ... once that many bytes have been written (the response head goes through)
 	written    atomic.Int64
@@ -220,8 +220,8 @@ type e2eRun struct {
 	curSrv    atomic.Pointer[srvConn]
 	curCli    atomic.Pointer[cutConn]
 	srvConns  []*srvConn
-	clock     atomic.Int64 // seconds added to the replayer's clock
-	curEvents atomic.Int64 // events received on the current attempt
+	clock     atomic.Int64                  // seconds added to the replayer's clock
+	curEvents atomic.Int64                  // events received on the current attempt
 	stallArm  atomic.Pointer[chan struct{}] // the next connection's peer stops reading after the response head
 	lis       *pipeListener
 	inner     http.RoundTripper
